@@ -75,7 +75,7 @@ pub fn gen_history(rng: &mut Rng) -> History {
                     pushes += 1;
                     Step::Push(rng.usize(0, 3))
                 }
-                2 => Step::PushGarbage(rng.below(4) as u8),
+                2 => Step::PushGarbage(rng.below(64) as u8),
                 _ => Step::Packet(*rng.pick(&[0usize, 10, 100, 230, 300, 700, 1500, 4000])),
             });
         }
@@ -94,7 +94,13 @@ fn garbage(kind: u8) -> Vec<u8> {
         0 => b"no stop line here\n1=10-20".to_vec(),
         1 => vec![0xFF, 0xFE, 0x00, 0x80, 0x81],
         2 => b"stop=abc\n0=1-2".to_vec(),
-        _ => b"stop=-4".to_vec(),
+        3 => b"stop=-4".to_vec(),
+        // long texts that cannot be parsed, with multi-byte characters starting at every offset (whoever quotes,
+        // truncates or logs a rejected scheme must cope with any byte position)
+        k if k % 4 == 0 => format!("# {}{}\n1=10-20", "a".repeat(k as usize), "\u{4f1a}\u{8bdd}".repeat(30)).into_bytes(),
+        k if k % 4 == 1 => vec![0xFF; 20 + k as usize],
+        k if k % 4 == 2 => format!("stop={}{}", "x".repeat(k as usize / 2), "\u{e9}".repeat(60)).into_bytes(),
+        k => format!("{}\u{1f600}{}\nstop=\u{20ac}", "b".repeat(k as usize), "\u{1f600}".repeat(20)).into_bytes(),
     }
 }
 
@@ -201,6 +207,24 @@ async fn run_history(h: &History) -> Value {
                         break;
                     }
                 }
+            }
+        }
+        // at the end of the session (packet accounting is over): does it still process what the server sends?
+        if problems.is_empty() && steps.iter().any(|st| matches!(st, Step::PushGarbage(_))) && !cv.client.is_closed() {
+            let _ = cv.peer.send(refcodec::HEART_REQ, 0, &[]).await;
+            let answered = tokio::time::timeout(Duration::from_secs(5), async {
+                loop {
+                    match cv.peer.recv().await {
+                        Some(f) if f.cmd == refcodec::HEART_RESP => return true,
+                        Some(_) => {}
+                        None => return false,
+                    }
+                }
+            })
+            .await
+            .unwrap_or(false);
+            if !answered {
+                problems.push(json!({"symptom": "unparsable_push_stopped_frame_processing", "detail": format!("session {si}: after unparsable scheme pushes the session no longer answers a keep-alive request")}));
             }
         }
         let _ = tokio::time::timeout(Duration::from_secs(5), cv.client.close()).await;
